@@ -502,9 +502,16 @@ func (fv *FuncVC) cellStore(addr ssa.Value, v Term) {
 		}
 		fv.cur.cells[x] = v
 	case *ssa.FieldAddr:
-		old := fv.cellLoad(x.X)
 		st := x.X.Type().Underlying().(*types.Pointer).Elem()
 		si := fv.TE.StructInfo(st)
+		if si == nil || isOpaque(st) {
+			// a field of an opaque struct value (e.g. sync.Pool{New: f}): the value stays opaque
+			nv := fv.freshConst("opq", SInt)
+			nv.T = st
+			fv.cellStore(x.X, nv)
+			return
+		}
+		old := fv.cellLoad(x.X)
 		var args []Term
 		for i, f := range si.Fields {
 			if i == x.Field {
